@@ -398,7 +398,7 @@ def random_trace(rnd, pool_, length):
             if op == 'append' and cand:
                 e = dict(op=op, r=r, x=rnd.choice(cand), i=0, y=NONE)
             elif op == 'insert' and cand:
-                e = dict(op=op, r=r, x=rnd.choice(cand), i=rnd.randint(0, len(ks)), y=NONE)
+                e = dict(op=op, r=r, x=rnd.choice(cand), i=rnd.randint(0, len(ks) + 2), y=NONE)
             elif op in ('insertBefore', 'insertAfter', 'replaceChild') and ks:
                 ref = rnd.choice(ks)
                 c2 = cand + [k for k in ks if k != ref and k not in frags]
@@ -514,11 +514,12 @@ def run(chk):
     maxops = 3 if tier == 'quick' else 4
     runs = [('mc+states', CFG_MC + 'INVARIANT EmitState\n', maxops)]
     if tier == 'thorough':
-        runs.append(('paths', CFG_EMIT_PATHS, 2))
+        # finer VIEW: every distinct (operation, resulting state) pair is exported, not only every state
+        runs.append(('ops', (CFG_MC + 'INVARIANT EmitState\n').replace('VIEW view', 'VIEW viewop'), 3))
     seen = set()
     for label, cfg, mo in runs:
         mod = mc_module('MC_Dom', 'Dom', elems, texts, frags, tag, txt0, mo, ALL_OPS)
-        r = tlc.run('MC_Dom', cfg_text=cfg, extra_modules={'MC_Dom.tla': mod}, coverage=(label != 'paths'),
+        r = tlc.run('MC_Dom', cfg_text=cfg, extra_modules={'MC_Dom.tla': mod}, coverage=(label == 'mc+states'),
                     timeout=3400)
         chk.add_tlc(r, '%s(MaxOps=%d)' % (label, mo))
         if label == 'mc+states':
@@ -556,7 +557,7 @@ def run(chk):
                 chk.violation(signature(rec, step, msg), msg, {'ops': [fmt(e) for e in rec['h']], 'behaviour': rec})
     chk.exhaustive = True
     chk.extra['bounds'] = {'pool': {'elements': elems, 'texts': texts, 'fragments': frags},
-                           'MaxOps_design_and_states': maxops, 'all_paths_upto': 2 if tier == 'thorough' else 0}
+                           'MaxOps_design_and_states': maxops, 'every_operation_result_pair_upto': 3 if tier == 'thorough' else 0}
 
     # 3. code -> spec
     big = pool(True)
